@@ -260,3 +260,19 @@ pub fn set_fixed(v: u16, hand: [u32; 5]) {
         G_CALLS = 0;
     }
 }
+
+// "some value" contract for hand_rank_value_validated (used to check hand_rank_validated)
+#[cfg(kani)]
+pub fn five_validated_fixed(_f: &Five) -> u16 {
+    unsafe { G_VAL }
+}
+
+#[cfg(kani)]
+pub fn six_validated_fixed(_h: &Six) -> u16 {
+    unsafe { G_VAL }
+}
+
+#[cfg(kani)]
+pub fn seven_validated_fixed(_h: &Seven) -> u16 {
+    unsafe { G_VAL }
+}
